@@ -105,6 +105,11 @@ CLAIMED = {
             'drives the real session through generated histories of delivered and lost messages and reconnects whose Logon may be above the expected number; the session must never log out '
             'or terminate, every application message must reach the application at least once, and at quiescence the expected number must equal the counterparty\'s next number.',
             'Quiescence of finite histories stands in for "eventually"; the session under test runs in the coroutine model on the in-memory socket with a MemoryPersister.', '4/C20 and 10.7'),
+    'C21': ('E1', 'exploration', 'property-based testing (Hypothesis): generated schedules of sends, pumps, drops and restarts over two real fix8 sessions wired back to back',
+            'An initiator and an acceptor (real Session/Connection pairs, FilePersisters) are connected through the harness, which decides when bytes in flight are delivered or lost; after '
+            'every failure both sides are rebuilt from their files and log on again. At the final quiescence every application message must have reached the peer application at least once, '
+            'first deliveries must be in send order, re-deliveries must carry PossDupFlag=Y, no Logout may have been sent and both sessions must be established.',
+            'Failures between operations only; in-process restarts; sessionwrapper.hpp socket plumbing is not exercised (no TCP).', '4/C21 and 10.7'),
 }
 
 
